@@ -23,6 +23,9 @@ MUTANTS = {
         ("first-row-only", P,
          "I = mapping.index[mapping['time_step'].isin(self.timegrid.I[fix_time_window['I']])].unique()",
          "mm = mapping[~mapping.index.duplicated(keep='first')]; I = mm.index[mm['time_step'].isin(self.timegrid.I[fix_time_window['I']])].unique()"),
+        ("split-window-values-not-sliced", P, "fix_tmp['x'] = np.asarray(fix_tmp['x'])[len_res:]", "fix_tmp['x'] = np.asarray(fix_tmp['x'])"),
+        ("split-window-steps-by-interval-position", P, "fix_tmp['I'] = np.isin(tmp_I, timegrid.I[fix_tmp['I']])",
+         "fix_tmp['I'] = np.isin(timegrid_tmp.I, timegrid.I[fix_tmp['I']])"),
         ("values-by-position", P, "            l[I] = fix_time_window['x'][I]\n            u[I] = fix_time_window['x'][I]",
          "            l[I] = fix_time_window['x'][0:len(I)]\n            u[I] = fix_time_window['x'][0:len(I)]"),
     ],
